@@ -492,6 +492,14 @@ class MessageManager(ClientLike):
 
         # Read Data Section
         data_size = self.header.num_data_bytes
+        if data_size < 0 or data_size > len(self.data_buffer):
+            mod = self.modules[sock]
+            self.remove_module(mod)
+            self.logger.warning(
+                f"DROPPING - {mod!s} - Invalid data size in header: {data_size}."
+            )
+            return False
+
         if data_size:
             nbytes = sock.recv_into(self.data_buffer, data_size, socket.MSG_WAITALL)
 
